@@ -3,7 +3,7 @@
 
 use hcore::case::{Case, ItemKind, Obs};
 use hcore::chaintab as chains;
-use hcore::closures::{keep, Call, ST_FOREACH, ST_KEY, ST_PRED, ST_RED};
+use hcore::closures::{pred_accepts, Call, ST_FOREACH, ST_KEY, ST_PRED, ST_RED};
 use hcore::model::{self, Elem, Full};
 use hcore::tok::{mixv, red_vals, ID_DEFAULT, PREFIX_BASE, RED_SUBCAT};
 use hcore::visit::{Term, TermResult};
@@ -31,7 +31,8 @@ pub struct Ctx<'a> {
 
 impl<'a> Ctx<'a> {
     pub fn new(case: &'a Case, obs: &'a Obs) -> Self {
-        let m = model::full(&case.kinds(), &obs.eff_input);
+        // inputs of millions of elements run without call logging and are judged on the pull log only
+        let m = if case.quiet { Full::default() } else { model::full(&case.kinds(), &obs.eff_input) };
         let seq = case.final_params().is_sequential();
         Ctx { case, obs, m, seq }
     }
@@ -63,7 +64,7 @@ fn multiset(ids: impl Iterator<Item = u64>) -> BTreeMap<u64, u32> {
 }
 
 fn pred_ok(e: &Elem) -> bool {
-    keep(ST_PRED, e.slot)
+    pred_accepts(e.id, e.slot)
 }
 
 /// Terminal result vs. the sequential reference (C01, C02, C03, C04, C06, C07, C09, C15).
